@@ -1,0 +1,71 @@
+// Licensed to Apache Software Foundation (ASF) under one or more contributor
+// license agreements. See the NOTICE file distributed with
+// this work for additional information regarding copyright
+// ownership. Apache Software Foundation (ASF) licenses this file to you under
+// the Apache License, Version 2.0 (the "License"); you may
+// not use this file except in compliance with the License.
+// You may obtain a copy of the License at
+//
+//     http://www.apache.org/licenses/LICENSE-2.0
+//
+// Unless required by applicable law or agreed to in writing,
+// software distributed under the License is distributed on an
+// "AS IS" BASIS, WITHOUT WARRANTIES OR CONDITIONS OF ANY
+// KIND, either express or implied.  See the License for the
+// specific language governing permissions and limitations
+// under the License.
+
+//go:build verif
+
+// Contracts for the verification harness (comment-only; compiled only with -tags verif).
+// Syntax: see /verif/DESIGN.md §2.2.
+
+package node
+
+//@ property C16
+//
+// Order on lookup-table keys: by group name, then by shard id. The table is kept strictly ascending in this order
+// (sorted and duplicate free), which makes it a function of the *set* of known (group, shard) pairs.
+//@ spec func keyLt(a key, b key) bool = a.group < b.group || (a.group == b.group && a.shardID < b.shardID)
+//@ spec func keyLe(a key, b key) bool = a.group < b.group || (a.group == b.group && a.shardID <= b.shardID)
+//@ spec func tableSorted(t []key) bool = forall i, j :: 0 <= i && i < j && j < len(t) ==> keyLt(t[i], t[j])
+//@ spec func tableAscending(t []key) bool = forall i, j :: 0 <= i && i < j && j < len(t) ==> keyLe(t[i], t[j])
+//
+// copies of one shard land on distinct nodes whenever there are enough nodes
+//@ lemma replicas_on_distinct_nodes(idx int, i int, j int, n int)
+//@   mode int
+//@   requires 0 <= idx && 0 <= i && i < j && j < n
+//@   ensures  (idx + i) % n != (idx + j) % n
+//
+//@ func key.equal
+//@   mode int
+//@   ensures result == (k.group == other.group && k.shardID == other.shardID)
+//@ func roundRobinSelector.selectNode
+//@   mode int
+//@   opt uf-mod
+//@   requires r != nil && len(r.nodes) > 0 && index >= 0 && index <= (1<<60)
+//@   ensures  result == r.nodes[(index + int(replicasID)) % len(r.nodes)]
+//@ func roundRobinSelector.sortEntries
+//@   mode int
+//@   requires r != nil
+//@   modifies r.lookupTable
+//@   opt sort-le keyLe
+//@   ensures  samehdr(r.lookupTable, old(r.lookupTable))
+//@   ensures  ascending: tableAscending(r.lookupTable)
+//@ func roundRobinSelector.Pick
+//@   mode int
+//@   opt uf-mod
+//@   requires r != nil && tableSorted(r.lookupTable)
+//@   inline equal
+//@   ensures  nonodes:  len(r.nodes) == 0 ==> result1 != nil
+//@   ensures  assigned: len(r.nodes) > 0 && (exists i :: 0 <= i && i < len(r.lookupTable) && r.lookupTable[i].group == group && r.lookupTable[i].shardID == shardID) ==> result1 == nil
+//@   ensures  member:   result1 == nil ==> (exists i :: 0 <= i && i < len(r.lookupTable) && r.lookupTable[i].group == group && r.lookupTable[i].shardID == shardID && result0 == r.nodes[(i + int(replicaID)) % len(r.nodes)])
+//@ func roundRobinSelector.removeGroup
+//@   mode int
+//@   requires r != nil
+//@   modifies r.lookupTable
+//@   ensures  removed: forall i :: 0 <= i && i < len(r.lookupTable) ==> r.lookupTable[i].group != group
+//@   ensures  len(r.lookupTable) <= old(len(r.lookupTable))
+//@   loop 0 invariant 0 <= i && i <= len(r.lookupTable) && sameobj(r.lookupTable, old(r.lookupTable)) && off(r.lookupTable) == off(old(r.lookupTable)) && len(r.lookupTable) <= old(len(r.lookupTable)) && cap(r.lookupTable) == cap(old(r.lookupTable))
+//@   loop 0 invariant forall k :: 0 <= k && k < i ==> r.lookupTable[k].group != group
+//@   loop 0 decreases len(r.lookupTable) - i
